@@ -303,6 +303,34 @@ def run(ctx, report):
     analyse(ctx, report)
     files(ctx, report)
     footer_band(ctx, report)
+    relative_list(ctx, report)
+
+
+def relative_list(ctx, report):
+    """three or more files named by RELATIVE paths, in an order of the caller's choosing: their concatenation in that order"""
+    import fastparquet
+    wd = os.path.join(ctx.workdir("c14"), "rel")
+    shutil.rmtree(wd, ignore_errors=True)
+    os.makedirs(wd)
+    cwd = os.getcwd()
+    rec = {"check": "files", "mode": "relative-list", "shape": "flat", "files": 4}
+    ctx.crumb(rec)
+    try:
+        os.chdir(wd)
+        for i in range(4):
+            fastparquet.write(f"f{i}.parquet", pd.DataFrame({"a": np.arange(i * 10, i * 10 + 3, dtype="int64")}))
+        names = ["f2.parquet", "f0.parquet", "f3.parquet", "f1.parquet"]
+        want = [20, 21, 22, 0, 1, 2, 30, 31, 32, 10, 11, 12]
+        try:
+            got = fastparquet.ParquetFile(names).to_pandas()["a"].tolist()
+            if got != want:
+                report.violation({**rec, "what": f"rows {got} read, the files in the given order hold {want}", "sig": "relative-list:order"})
+        except Exception as e:  # noqa
+            report.violation({**rec, "what": "opening a list of relative paths raised " + canon_err(e) + " " + str(e)[:80], "sig": "relative-list:raised"})
+    finally:
+        os.chdir(cwd)
+    report.case(("relative-list",), True)
+    shutil.rmtree(wd, ignore_errors=True)
 
 
 def search(ctx, report):
